@@ -30,7 +30,7 @@ theorem wellFormed_iff : ∀ (t : T) (lo hi : Option Int),
   intro t
   induction t with
   | nil => intro lo hi; simp [wellFormed, Sorted, Within]
-  | node l k v b r ihl ihr =>
+  | node l k v b r i p ihl ihr =>
     intro lo hi
     simp only [wellFormed, Bool.and_eq_true, above_iff, below_iff, decide_eq_true_eq, ihl, ihr,
       avl_node, sorted_node]
@@ -88,7 +88,7 @@ theorem fib_le_size : ∀ t : T, Avl t → fib (height t + 2) ≤ size t + 1 := 
   intro t
   induction t with
   | nil => intro _; simp [fib, T.size]
-  | node l k v b r ihl ihr =>
+  | node l k v b r i p ihl ihr =>
     intro ha
     obtain ⟨hl, hr, hb, hb1, hb2⟩ := ha
     have il := ihl hl
